@@ -1,12 +1,13 @@
 import Crem.Model.Runs
 /-!
 Helper lemmas for property C08 (`Crem/Properties/C08.lean`): point updates, the counters over
-phase classes, the bookkeeping invariant of `runScenario`, progress, the termination measure and
-the per-worker trace invariant.  Core Lean only.
+phase classes, the bookkeeping invariant of `runScenario`, progress, footprints (`Respects`,
+`ClonePrivate`), the per-worker trace invariant over the shared heap, the termination measure and
+the footprint of the concrete annealing program.  Core Lean only.
 -/
 namespace Crem.Runs
 
-variable {Sh P C : Type}
+variable {V : Type}
 
 /-! ### point updates, iteration -/
 
@@ -15,6 +16,14 @@ variable {Sh P C : Type}
 
 theorem upd_ne {α : Type} (f : Nat → α) {i j : Nat} (v : α) (h : j ≠ i) : upd f i v j = f j := by
   simp [upd, h]
+
+theorem Heap.set_apply (h : Heap V) (i : Nat) (v : V) (j : Nat) : (h.set i v) j = if j = i then v else h j := rfl
+
+@[simp] theorem Heap.set_same (h : Heap V) (i : Nat) (v : V) : (h.set i v) i = v := by
+  simp [Heap.set_apply]
+
+theorem Heap.set_ne (h : Heap V) {i j : Nat} (v : V) (hne : j ≠ i) : (h.set i v) j = h j := by
+  simp [Heap.set_apply, hne]
 
 theorem iter_succ' {α : Type} (f : α → α) (n : Nat) (a : α) : iter f (n + 1) a = f (iter f n a) := by
   induction n generalizing a with
@@ -109,7 +118,7 @@ theorem sumN_lt {f f' : Nat → Nat} {n i : Nat} (hi : i < n) (hlt : f' i < f i)
 
 /-! ### schedules -/
 
-theorem run_append (cfg : Config Sh P C) (s : State P C) (a b : List Ev) :
+theorem run_append (cfg : Config V) (s : State V) (a b : List Ev) :
     run cfg s (a ++ b) = (run cfg s a).bind (fun s' => run cfg s' b) := by
   induction a generalizing s with
   | nil => rfl
@@ -121,9 +130,9 @@ theorem run_append (cfg : Config Sh P C) (s : State P C) (a b : List Ev) :
 
 /-- induction principle over schedules: a property of the initial state preserved by every
     enabled event holds after every schedule -/
-theorem run_induction (cfg : Config Sh P C) (I : State P C → Prop)
+theorem run_induction (cfg : Config V) (I : State V → Prop)
     (hstep : ∀ s e s', I s → exec cfg s e = some s' → I s') :
-    ∀ (sch : List Ev) (s s' : State P C), I s → run cfg s sch = some s' → I s' := by
+    ∀ (sch : List Ev) (s s' : State V), I s → run cfg s sch = some s' → I s' := by
   intro sch
   induction sch with
   | nil => intro s s' hI h; simp only [run] at h; cases h; exact hI
@@ -134,37 +143,45 @@ theorem run_induction (cfg : Config Sh P C) (I : State P C → Prop)
     | none => rw [he] at h; cases h
     | some s₁ => rw [he] at h; exact ih s₁ s' (hstep s e s₁ hI he) h
 
-/-! ### solo runs -/
+/-! ### a panic changes only `err` or `crashed` -/
 
-/-- a run that neither finishes nor fails during its first `n` steps continues from there -/
-theorem solo_iter (w : Worker Sh P C) (sh : Sh) (n m : Nat) (l : P × C)
-    (h : ∀ k, k < n → w.done sh (iter (w.step sh) k l) = false ∧ w.fails sh (iter (w.step sh) k l) = false) :
-    solo w sh (n + m) l = solo w sh m (iter (w.step sh) n l) := by
-  induction n generalizing l with
-  | zero => simp [iter]
-  | succ n ih =>
-    have h0 := h 0 (Nat.succ_pos n)
-    simp only [iter] at h0
-    have : n + 1 + m = (n + m) + 1 := by omega
-    rw [this]
-    simp only [solo, h0.1, h0.2, iter]
-    apply ih
-    intro k hk
-    have := h (k + 1) (by omega)
-    simpa only [iter] using this
+@[simp] theorem panicked_next (cfg : Config V) (s : State V) (i : Nat) : (panicked cfg s i).next = s.next := by
+  unfold panicked; split <;> rfl
+@[simp] theorem panicked_chan (cfg : Config V) (s : State V) (i : Nat) : (panicked cfg s i).chan = s.chan := by
+  unfold panicked; split <;> rfl
+@[simp] theorem panicked_wg (cfg : Config V) (s : State V) (i : Nat) : (panicked cfg s i).wg = s.wg := by
+  unfold panicked; split <;> rfl
+@[simp] theorem panicked_phase (cfg : Config V) (s : State V) (i : Nat) : (panicked cfg s i).phase = s.phase := by
+  unfold panicked; split <;> rfl
+@[simp] theorem panicked_heap (cfg : Config V) (s : State V) (i : Nat) : (panicked cfg s i).heap = s.heap := by
+  unfold panicked; split <;> rfl
+@[simp] theorem panicked_steps (cfg : Config V) (s : State V) (i : Nat) : (panicked cfg s i).steps = s.steps := by
+  unfold panicked; split <;> rfl
+@[simp] theorem panicked_obs (cfg : Config V) (s : State V) (i : Nat) : (panicked cfg s i).obs = s.obs := by
+  unfold panicked; split <;> rfl
+@[simp] theorem panicked_returned (cfg : Config V) (s : State V) (i : Nat) : (panicked cfg s i).returned = s.returned := by
+  unfold panicked; split <;> rfl
 
-theorem solo_done (w : Worker Sh P C) (sh : Sh) (m : Nat) (l : P × C) (h : w.done sh l = true) :
-    solo w sh m l = .finished l := by
-  cases m <;> simp [solo, h]
+theorem panicked_iso {cfg : Config V} (h : cfg.isolate = true) (s : State V) (i : Nat) :
+    (panicked cfg s i).err = upd s.err i true ∧ (panicked cfg s i).crashed = s.crashed := by
+  unfold panicked; rw [if_pos h]; exact ⟨rfl, rfl⟩
 
-theorem solo_fails (w : Worker Sh P C) (sh : Sh) (m : Nat) (l : P × C) (hd : w.done sh l = false)
-    (h : w.fails sh l = true) : solo w sh m l = .failed l := by
-  cases m <;> simp [solo, h, hd]
+theorem panicked_bare {cfg : Config V} (h : cfg.isolate = false) (s : State V) (i : Nat) :
+    (panicked cfg s i).err = s.err ∧ (panicked cfg s i).crashed = true := by
+  unfold panicked; rw [if_neg (by rw [h]; decide)]; exact ⟨rfl, rfl⟩
+
+/-- either way: `err` changes at most at `i` (to `true`), `crashed` at most to `true` -/
+theorem panicked_cases (cfg : Config V) (s : State V) (i : Nat) :
+    ((panicked cfg s i).err = upd s.err i true ∧ (panicked cfg s i).crashed = s.crashed ∧ cfg.isolate = true) ∨
+    ((panicked cfg s i).err = s.err ∧ (panicked cfg s i).crashed = true ∧ cfg.isolate = false) := by
+  cases h : cfg.isolate with
+  | true => exact Or.inl ⟨(panicked_iso h s i).1, (panicked_iso h s i).2, rfl⟩
+  | false => exact Or.inr ⟨(panicked_bare h s i).1, (panicked_bare h s i).2, rfl⟩
 
 /-! ### the bookkeeping invariant of `runScenario` -/
 
 /-- channel and WaitGroup as counters over the workers' phases -/
-structure Book (cfg : Config Sh P C) (s : State P C) : Prop where
+structure Book (cfg : Config V) (s : State V) : Prop where
   next_le : s.next ≤ cfg.runs
   idle_ge : ∀ i, s.next ≤ i → s.phase i = .idle
   busy_lt : ∀ i, i < s.next → s.phase i ≠ .idle
@@ -173,7 +190,7 @@ structure Book (cfg : Config Sh P C) (s : State P C) : Prop where
   wg_eq : s.wg + cnt isFinished s.phase s.next = cfg.runs
   ret_done : s.returned = true → s.next = cfg.runs ∧ s.wg = 0
 
-theorem Book.init (cfg : Config Sh P C) (cells₀ : Nat → C) : Book cfg (init cfg cells₀) where
+theorem Book.init (cfg : Config V) (h₀ : Heap V) : Book cfg (init cfg h₀) where
   next_le := Nat.zero_le _
   idle_ge := fun _ _ => rfl
   busy_lt := fun i hi => by simp [Runs.init] at hi
@@ -182,13 +199,48 @@ theorem Book.init (cfg : Config Sh P C) (cells₀ : Nat → C) : Book cfg (init 
   wg_eq := rfl
   ret_done := fun h => by simp [Runs.init] at h
 
-theorem Book.lt_next {cfg : Config Sh P C} {s : State P C} (hB : Book cfg s) {i : Nat}
+theorem Book.lt_next {cfg : Config V} {s : State V} (hB : Book cfg s) {i : Nat}
     (h : s.phase i ≠ .idle) : i < s.next := by
   apply Classical.byContradiction
   intro hn
   exact h (hB.idle_ge i (by omega))
 
-theorem Book.exec {cfg : Config Sh P C} {s s' : State P C} {e : Ev} (hB : Book cfg s)
+/-- the invariant talks about the counters and the phases only -/
+theorem Book.congr {cfg : Config V} {s s' : State V} (hB : Book cfg s) (h1 : s'.next = s.next)
+    (h2 : s'.chan = s.chan) (h3 : s'.wg = s.wg) (h4 : s'.phase = s.phase) (h5 : s'.returned = s.returned) :
+    Book cfg s' := by
+  refine ⟨?_, ?_, ?_, ?_, ?_, ?_, ?_⟩
+  · rw [h1]; exact hB.next_le
+  · rw [h1, h4]; exact hB.idle_ge
+  · rw [h1, h4]; exact hB.busy_lt
+  · rw [h1, h2, h4]; exact hB.chan_eq
+  · rw [h2]; exact hB.chan_le
+  · rw [h1, h3, h4]; exact hB.wg_eq
+  · rw [h1, h3, h5]; exact hB.ret_done
+
+/-- a worker moves between two phases of the same classes (spawned → running, running → saved) -/
+theorem Book.move {cfg : Config V} {s : State V} (hB : Book cfg s) {i : Nat} {v : Phase}
+    (hi : s.phase i ≠ .idle) (hv : v ≠ .idle) (hin : inflight v = inflight (s.phase i))
+    (hfi : isFinished v = isFinished (s.phase i)) :
+    Book cfg { s with phase := upd s.phase i v } := by
+  have hlt : i < s.next := hB.lt_next hi
+  have h1 := cnt_upd_lt inflight s.phase v hlt
+  have h2 := cnt_upd_lt isFinished s.phase v hlt
+  rw [hin] at h1
+  rw [hfi] at h2
+  refine ⟨hB.next_le, ?_, ?_, ?_, hB.chan_le, ?_, hB.ret_done⟩
+  · intro j hj
+    simp only at hj ⊢
+    rw [upd_ne _ _ (by omega)]; exact hB.idle_ge j hj
+  · intro j hj
+    simp only at hj ⊢
+    by_cases hji : j = i
+    · subst hji; simpa using hv
+    · rw [upd_ne _ _ hji]; exact hB.busy_lt j hj
+  · simp only; have := hB.chan_eq; omega
+  · simp only; have := hB.wg_eq; omega
+
+theorem Book.exec {cfg : Config V} {s s' : State V} {e : Ev} (hB : Book cfg s)
     (h : exec cfg s e = some s') : Book cfg s' := by
   cases e with
   | spawn =>
@@ -219,42 +271,52 @@ theorem Book.exec {cfg : Config Sh P C} {s s' : State P C} {e : Ev} (hB : Book c
     simp only [Runs.exec] at h
     split at h
     · rename_i hc
-      cases h
       obtain ⟨_, hph⟩ := hc
-      have hi : i < s.next := hB.lt_next (by rw [hph]; decide)
-      have h1 := cnt_upd_lt inflight s.phase .running hi
-      have h2 := cnt_upd_lt isFinished s.phase .running hi
-      rw [hph] at h1 h2
-      simp only [inflight, isFinished] at h1 h2
-      refine ⟨hB.next_le, ?_, ?_, ?_, hB.chan_le, ?_, hB.ret_done⟩
-      · intro j hj
-        simp only at hj ⊢
-        rw [upd_ne _ _ (by omega)]; exact hB.idle_ge j hj
-      · intro j hj
-        simp only at hj ⊢
-        by_cases hji : j = i
-        · subst hji; simp
-        · rw [upd_ne _ _ hji]; exact hB.busy_lt j hj
-      · simp only; have := hB.chan_eq; simp at h1; omega
-      · simp only; have := hB.wg_eq; simp at h2; omega
+      have hm : Book cfg { s with phase := upd s.phase i .running } :=
+        hB.move (by rw [hph]; decide) (by decide) (by rw [hph]; rfl) (by rw [hph]; rfl)
+      split at h
+      · split at h
+        · cases h; exact hm.congr rfl rfl rfl rfl rfl
+        · cases h; exact hB.congr rfl rfl rfl rfl rfl
+      · cases h
+        exact hm.congr rfl rfl rfl rfl rfl
     · cases h
   | step i =>
     simp only [Runs.exec] at h
     split at h
     · split at h
-      · split at h <;> (cases h; exact ⟨hB.next_le, hB.idle_ge, hB.busy_lt, hB.chan_eq, hB.chan_le, hB.wg_eq, hB.ret_done⟩)
-      · cases h; exact ⟨hB.next_le, hB.idle_ge, hB.busy_lt, hB.chan_eq, hB.chan_le, hB.wg_eq, hB.ret_done⟩
+      · cases h; exact hB.congr (by simp) (by simp) (by simp) (by simp) (by simp)
+      · cases h; exact hB.congr rfl rfl rfl rfl rfl
+    · cases h
+  | finish i =>
+    simp only [Runs.exec] at h
+    split at h
+    · rename_i hc
+      obtain ⟨_, hph, _, _⟩ := hc
+      split at h
+      · cases h; exact hB.congr (by simp) (by simp) (by simp) (by simp) (by simp)
+      · cases h
+        have hm : Book cfg { s with phase := upd s.phase i .saved } :=
+          hB.move (by rw [hph]; decide) (by decide) (by rw [hph]; rfl) (by rw [hph]; rfl)
+        exact hm.congr rfl rfl rfl rfl rfl
     · cases h
   | release i =>
     simp only [Runs.exec] at h
     split at h
     · rename_i hc
       cases h
-      obtain ⟨_, hph, _⟩ := hc
-      have hi : i < s.next := hB.lt_next (by rw [hph]; decide)
+      obtain ⟨_, hrel⟩ := hc
+      have hne : s.phase i ≠ .idle := by
+        rcases hrel with ⟨h1, _⟩ | h1 <;> (rw [h1]; decide)
+      have hinf : inflight (s.phase i) = true := by
+        rcases hrel with ⟨h1, _⟩ | h1 <;> (rw [h1]; rfl)
+      have hnf : isFinished (s.phase i) = false := by
+        rcases hrel with ⟨h1, _⟩ | h1 <;> (rw [h1]; rfl)
+      have hi : i < s.next := hB.lt_next hne
       have h1 := cnt_upd_lt inflight s.phase .released hi
       have h2 := cnt_upd_lt isFinished s.phase .released hi
-      rw [hph] at h1 h2
+      rw [hinf] at h1
+      rw [hnf] at h2
       simp only [inflight, isFinished] at h1 h2
       refine ⟨hB.next_le, ?_, ?_, ?_, ?_, ?_, hB.ret_done⟩
       · intro j hj
@@ -308,20 +370,25 @@ theorem Book.exec {cfg : Config Sh P C} {s s' : State P C} {e : Ev} (hB : Book c
       exact ⟨hB.next_le, hB.idle_ge, hB.busy_lt, hB.chan_eq, hB.chan_le, hB.wg_eq, fun _ => ⟨hn, hw⟩⟩
     · cases h
 
-theorem Book.run {cfg : Config Sh P C} {cells₀ : Nat → C} {sch : List Ev} {s : State P C}
-    (h : Runs.run cfg (Runs.init cfg cells₀) sch = some s) : Book cfg s :=
-  run_induction cfg (Book cfg) (fun _ _ _ hB he => hB.exec he) sch _ _ (Book.init cfg cells₀) h
+theorem Book.run {cfg : Config V} {h₀ : Heap V} {sch : List Ev} {s : State V}
+    (h : Runs.run cfg (Runs.init cfg h₀) sch = some s) : Book cfg s :=
+  run_induction cfg (Book cfg) (fun _ _ _ hB he => hB.exec he) sch _ _ (Book.init cfg h₀) h
 
 /-! ### no crash when failures are isolated (or nothing fails) -/
 
-/-- failures are confined to the failing run, or no run ever fails -/
-def Safe (cfg : Config Sh P C) : Prop :=
-  cfg.isolate = true ∨ ∀ l, cfg.fails cfg.shared l = false
+/-- failures are confined to the failing run, or no run ever fails (at any of the three sites) -/
+def Safe (cfg : Config V) : Prop :=
+  cfg.isolate = true ∨
+  ∀ i h, (cfg.prog i).cloneFails h = false ∧ (cfg.prog i).fails h = false ∧ (cfg.prog i).finishFails h = false
 
-theorem exec_not_crashed {cfg : Config Sh P C} {s s' : State P C} {e : Ev} (hsafe : Safe cfg)
+theorem panicked_not_crashed {cfg : Config V} (hiso : cfg.isolate = true) {s : State V} (hc : s.crashed = false)
+    (i : Nat) : (panicked cfg s i).crashed = false := by
+  rw [(panicked_iso hiso s i).2]; exact hc
+
+theorem exec_not_crashed {cfg : Config V} {s s' : State V} {e : Ev} (hsafe : Safe cfg)
     (hc : s.crashed = false) (h : exec cfg s e = some s') : s'.crashed = false := by
   cases e with
-  | step i =>
+  | clone i =>
     simp only [Runs.exec] at h
     split at h
     · split at h
@@ -331,17 +398,38 @@ theorem exec_not_crashed {cfg : Config Sh P C} {s s' : State P C} {e : Ev} (hsaf
         · rename_i hiso
           rcases hsafe with h1 | h1
           · exact absurd h1 hiso
-          · rw [h1] at hf; cases hf
+          · rw [(h1 i s.heap).1] at hf; cases hf
+      · cases h; exact hc
+    · cases h
+  | step i =>
+    simp only [Runs.exec] at h
+    split at h
+    · split at h
+      · rename_i hf
+        cases h
+        rcases hsafe with h1 | h1
+        · exact panicked_not_crashed h1 hc i
+        · rw [(h1 i s.heap).2.1] at hf; cases hf
+      · cases h; exact hc
+    · cases h
+  | finish i =>
+    simp only [Runs.exec] at h
+    split at h
+    · split at h
+      · rename_i hf
+        cases h
+        rcases hsafe with h1 | h1
+        · exact panicked_not_crashed h1 hc i
+        · rw [(h1 i s.heap).2.2] at hf; cases hf
       · cases h; exact hc
     · cases h
   | spawn => simp only [Runs.exec] at h; split at h <;> cases h; exact hc
-  | clone i => simp only [Runs.exec] at h; split at h <;> cases h; exact hc
   | release i => simp only [Runs.exec] at h; split at h <;> cases h; exact hc
   | wgDone i => simp only [Runs.exec] at h; split at h <;> cases h; exact hc
   | ret => simp only [Runs.exec] at h; split at h <;> cases h; exact hc
 
-theorem run_not_crashed {cfg : Config Sh P C} (hsafe : Safe cfg) {cells₀ : Nat → C} {sch : List Ev}
-    {s : State P C} (h : run cfg (init cfg cells₀) sch = some s) : s.crashed = false :=
+theorem run_not_crashed {cfg : Config V} (hsafe : Safe cfg) {h₀ : Heap V} {sch : List Ev}
+    {s : State V} (h : run cfg (init cfg h₀) sch = some s) : s.crashed = false :=
   run_induction cfg (fun s => s.crashed = false) (fun _ _ _ hc he => exec_not_crashed hsafe hc he) sch _ _ rfl h
 
 /-! ### progress: the bookkeeping never deadlocks -/
@@ -354,15 +442,8 @@ theorem forall_of_cnt_zero (g : Phase → Bool) (f : Nat → Phase) {n : Nat} (h
   cases hg : g (f i) with
   | false => rfl
   | true =>
-    have h1 := cnt_upd_lt g f (f i) hi
-    have h2 : upd f i (f i) = f := by
-      funext j; by_cases hji : j = i
-      · subst hji; simp
-      · exact upd_ne f _ hji
-    rw [h2] at h1
-    -- count is positive because position i contributes
     have hpos : 0 < cnt g f n := by
-      clear h1 h2 h
+      clear h
       induction n with
       | zero => omega
       | succ n ih =>
@@ -372,7 +453,7 @@ theorem forall_of_cnt_zero (g : Phase → Bool) (f : Nat → Phase) {n : Nat} (h
         · have := ih (by omega); omega
     omega
 
-theorem progress {cfg : Config Sh P C} {s : State P C} (hb : 0 < cfg.bound) (hB : Book cfg s)
+theorem progress {cfg : Config V} {s : State V} (hb : 0 < cfg.bound) (hB : Book cfg s)
     (hc : s.crashed = false) (hr : s.returned = false) : ∃ e s', exec cfg s e = some s' := by
   by_cases hu : 0 < cnt notFinished s.phase s.next
   · obtain ⟨i, hi, hnf⟩ := exists_of_cnt_pos _ _ hu
@@ -382,24 +463,27 @@ theorem progress {cfg : Config Sh P C} {s : State P C} (hb : 0 < cfg.bound) (hB 
       refine ⟨.clone i, ?_⟩
       simp only [Runs.exec]
       rw [if_pos ⟨hc, hph⟩]
-      exact ⟨_, rfl⟩
+      split
+      · split <;> exact ⟨_, rfl⟩
+      · exact ⟨_, rfl⟩
     | running =>
-      by_cases hrel : s.err i = true ∨ cfg.done cfg.shared (loc cfg s i) = true
-      · exact ⟨.release i, _, by simp only [Runs.exec]; rw [if_pos ⟨hc, hph, hrel⟩]⟩
-      · have he : s.err i = false := by
-          cases h : s.err i with
-          | false => rfl
-          | true => exact absurd (Or.inl h) hrel
-        have hd : cfg.done cfg.shared (loc cfg s i) = false := by
-          cases h : cfg.done cfg.shared (loc cfg s i) with
-          | false => rfl
-          | true => exact absurd (Or.inr h) hrel
-        refine ⟨.step i, ?_⟩
-        simp only [Runs.exec]
-        rw [if_pos ⟨hc, hph, he, hd⟩]
-        split
-        · split <;> exact ⟨_, rfl⟩
-        · exact ⟨_, rfl⟩
+      cases he : s.err i with
+      | true =>
+        exact ⟨.release i, _, by simp only [Runs.exec]; rw [if_pos ⟨hc, Or.inl ⟨hph, he⟩⟩]⟩
+      | false =>
+        cases hd : (cfg.prog i).done s.heap with
+        | false =>
+          refine ⟨.step i, ?_⟩
+          simp only [Runs.exec]
+          rw [if_pos ⟨hc, hph, he, hd⟩]
+          split <;> exact ⟨_, rfl⟩
+        | true =>
+          refine ⟨.finish i, ?_⟩
+          simp only [Runs.exec]
+          rw [if_pos ⟨hc, hph, he, hd⟩]
+          split <;> exact ⟨_, rfl⟩
+    | saved =>
+      exact ⟨.release i, _, by simp only [Runs.exec]; rw [if_pos ⟨hc, Or.inr hph⟩]⟩
     | released =>
       refine ⟨.wgDone i, ?_⟩
       simp only [Runs.exec]
@@ -427,37 +511,487 @@ theorem progress {cfg : Config Sh P C} {s : State P C} (hb : 0 < cfg.bound) (hB 
       rw [if_pos ⟨hc, hr, hne, by have := hB.wg_eq; omega⟩]
       exact ⟨_, rfl⟩
 
-/-! ### termination measure -/
+/-! ### footprints -/
 
-/-- every step that neither finishes nor fails brings the run closer to its end (for an annealer:
-    `MaximumIterations - currentIteration`, a quantity of the private part) -/
-def Terminates (cfg : Config Sh P C) (μ : P → Nat) : Prop :=
-  ∀ l, cfg.done cfg.shared l = false → cfg.fails cfg.shared l = false → μ (cfg.step cfg.shared l).1 < μ l.1
+theorem AgreeOn.refl (A : Nat → Prop) (h : Heap V) : AgreeOn A h h := fun _ _ => rfl
 
-def weightOf (μ : P → Nat) (p₀ : P) (ph : Phase) (er : Bool) (p : P) : Nat :=
+theorem AgreeOn.symm {A : Nat → Prop} {h h' : Heap V} (H : AgreeOn A h h') : AgreeOn A h' h :=
+  fun a ha => (H a ha).symm
+
+theorem AgreeOn.trans {A : Nat → Prop} {h h' h'' : Heap V} (H : AgreeOn A h h') (H' : AgreeOn A h' h'') :
+    AgreeOn A h h'' := fun a ha => (H a ha).trans (H' a ha)
+
+theorem AgreeOn.mono {A B : Nat → Prop} {h h' : Heap V} (H : AgreeOn A h h') (hBA : ∀ a, B a → A a) :
+    AgreeOn B h h' := fun a ha => H a (hBA a ha)
+
+/-- a transformer that respects `(R, W)` maps heaps agreeing on `A ⊇ R` to heaps agreeing on `A` -/
+theorem TRespects.agree {f : Heap V → Heap V} {R W : List Nat} (hf : TRespects f R W) {A : Nat → Prop}
+    (hRA : ∀ a, a ∈ R → A a) {h h' : Heap V} (H : AgreeOn A h h') : AgreeOn A (f h) (f h') := by
+  intro a ha
+  by_cases hw : a ∈ W
+  · rcases hf.loc h h' (H.mono hRA) a hw with e | ⟨e1, e2⟩
+    · exact e
+    · rw [e1, e2]; exact H a ha
+  · rw [hf.frame h a hw, hf.frame h' a hw]; exact H a ha
+
+/-- doing nothing respects every footprint -/
+theorem TRespects.id (R W : List Nat) : TRespects (fun h : Heap V => h) R W :=
+  ⟨fun _ _ _ => rfl, fun _ _ _ _ _ => Or.inr ⟨rfl, rfl⟩⟩
+
+/-- after a transformer that respects `(R, W)`: write to a cell of `W` a value computed from cells of `R` -/
+theorem TRespects.write {f : Heap V → Heap V} {R W : List Nat} (hf : TRespects f R W) (x : Nat) (hx : x ∈ W)
+    (g : Heap V → V) (hg : ∀ h h', AgreeOn (· ∈ R) h h' → g h = g h') :
+    TRespects (fun h => (f h).set x (g (f h))) R W := by
+  refine ⟨?_, ?_⟩
+  · intro h a ha
+    have : a ≠ x := fun e => ha (e ▸ hx)
+    simp only [Heap.set_apply, this, if_false]
+    exact hf.frame h a ha
+  · intro h h' H a ha
+    by_cases hax : a = x
+    · subst hax
+      left
+      simp only [Heap.set_apply, if_true]
+      exact hg _ _ (hf.agree (fun _ h => h) H)
+    · simp only [Heap.set_apply, hax, if_false]
+      exact hf.loc h h' H a ha
+
+/-- a transformer that writes only `W` leaves every cell outside `W` alone -/
+theorem TRespects.untouched {f : Heap V → Heap V} {R W : List Nat} (hf : TRespects f R W) {A : Nat → Prop}
+    (hAW : ∀ a, A a → a ∉ W) (h : Heap V) : AgreeOn A (f h) h :=
+  fun a ha => hf.frame h a (hAW a ha)
+
+/-- what every cell of `Own ft i` knows about another run `j`'s writes: they miss it -/
+theorem own_not_written {ft : Footprint} {runs i j : Nat} (hd : Disjoint runs ft) (hi : i < runs) (hj : j < runs)
+    (hij : j ≠ i) : ∀ a, Own ft i a → a ∉ ft.W j := by
+  intro a ha hw
+  exact ha.2 (hd.1 j hj i hi hij a hw ha.1)
+
+/-- the read set is part of `Own` (no run reads a lock-guarded cell) -/
+theorem read_own {ft : Footprint} {runs i : Nat} (hd : Disjoint runs ft) (hi : i < runs) :
+    ∀ a, a ∈ ft.R i → Own ft i a :=
+  fun a ha => ⟨Or.inl ha, fun hl => hd.2 i hi a hl ha⟩
+
+/-! ### the per-worker trace invariant (needs `ClonePrivate`) -/
+
+/-- the heap of the run alone after its clone phase and `k` iterations -/
+def tr (p : Prog V) (h₀ : Heap V) (k : Nat) : Heap V := iter p.step k (p.clone h₀)
+
+theorem tr_succ (p : Prog V) (h₀ : Heap V) (k : Nat) : tr p h₀ (k + 1) = p.step (tr p h₀ k) :=
+  iter_succ' _ _ _
+
+/-- the run was cloned (alone: from `h₀`), reported what the clone of `h₀` is on its own cells, and
+    none of its first `k` iterations was taken after it was done or should have failed -/
+structure Core (p : Prog V) (A : Nat → Prop) (h₀ : Heap V) (ob : Option (Heap V)) (k : Nat) : Prop where
+  cloned : p.cloneFails h₀ = false
+  obs : ∃ o, ob = some o ∧ AgreeOn A o (p.clone h₀)
+  path : ∀ j, j < k → p.done (tr p h₀ j) = false ∧ p.fails (tr p h₀ j) = false
+
+/-- the run has stopped with a (recovered) panic at one of the three sites, exactly where the run
+    alone panics -/
+def Stopped (p : Prog V) (A : Nat → Prop) (h₀ : Heap V) (ob : Option (Heap V)) (h : Heap V) (k : Nat) : Prop :=
+  (k = 0 ∧ p.cloneFails h₀ = true ∧ AgreeOn A h h₀) ∨
+  (Core p A h₀ ob k ∧ AgreeOn A h (tr p h₀ k) ∧ p.done (tr p h₀ k) = false ∧ p.fails (tr p h₀ k) = true) ∨
+  (Core p A h₀ ob k ∧ AgreeOn A h (tr p h₀ k) ∧ p.done (tr p h₀ k) = true ∧ p.finishFails (tr p h₀ k) = true)
+
+/-- the run has completed and saved its result, exactly as the run alone does -/
+def Saved (p : Prog V) (A : Nat → Prop) (h₀ : Heap V) (ob : Option (Heap V)) (h : Heap V) (k : Nat) : Prop :=
+  Core p A h₀ ob k ∧ AgreeOn A h (p.finish (tr p h₀ k)) ∧ p.done (tr p h₀ k) = true ∧
+    p.finishFails (tr p h₀ k) = false
+
+def Ended (p : Prog V) (A : Nat → Prop) (h₀ : Heap V) (ob : Option (Heap V)) (h : Heap V) (k : Nat) (er : Bool) : Prop :=
+  (er = true ∧ Stopped p A h₀ ob h k) ∨ (er = false ∧ Saved p A h₀ ob h k)
+
+def WInv (p : Prog V) (A : Nat → Prop) (h₀ : Heap V) (ph : Phase) (ob : Option (Heap V)) (h : Heap V)
+    (k : Nat) (er : Bool) : Prop :=
   match ph with
-  | .idle => μ p₀ + 5
-  | .spawned => μ p₀ + 4
-  | .running => if er then 2 else μ p + 3
+  | .idle => er = false ∧ k = 0 ∧ AgreeOn A h h₀
+  | .spawned => er = false ∧ k = 0 ∧ AgreeOn A h h₀
+  | .running => (er = true ∧ Stopped p A h₀ ob h k) ∨ (er = false ∧ Core p A h₀ ob k ∧ AgreeOn A h (tr p h₀ k))
+  | .saved => er = false ∧ Saved p A h₀ ob h k
+  | .released => Ended p A h₀ ob h k er
+  | .finished => Ended p A h₀ ob h k er
+
+theorem Stopped.heap_congr {p : Prog V} {A : Nat → Prop} {h₀ : Heap V} {ob : Option (Heap V)} {h h' : Heap V}
+    {k : Nat} (H : AgreeOn A h' h) : Stopped p A h₀ ob h k → Stopped p A h₀ ob h' k := by
+  rintro (⟨a, b, c⟩ | ⟨a, b, c⟩ | ⟨a, b, c⟩)
+  · exact Or.inl ⟨a, b, H.trans c⟩
+  · exact Or.inr (Or.inl ⟨a, H.trans b, c⟩)
+  · exact Or.inr (Or.inr ⟨a, H.trans b, c⟩)
+
+theorem Saved.heap_congr {p : Prog V} {A : Nat → Prop} {h₀ : Heap V} {ob : Option (Heap V)} {h h' : Heap V}
+    {k : Nat} (H : AgreeOn A h' h) : Saved p A h₀ ob h k → Saved p A h₀ ob h' k :=
+  fun ⟨a, b, c⟩ => ⟨a, H.trans b, c⟩
+
+theorem Ended.heap_congr {p : Prog V} {A : Nat → Prop} {h₀ : Heap V} {ob : Option (Heap V)} {h h' : Heap V}
+    {k : Nat} {er : Bool} (H : AgreeOn A h' h) : Ended p A h₀ ob h k er → Ended p A h₀ ob h' k er := by
+  rintro (⟨a, b⟩ | ⟨a, b⟩)
+  · exact Or.inl ⟨a, b.heap_congr H⟩
+  · exact Or.inr ⟨a, b.heap_congr H⟩
+
+/-- the invariant of a worker looks at the heap through its own cells only -/
+theorem WInv.heap_congr {p : Prog V} {A : Nat → Prop} {h₀ : Heap V} {ph : Phase} {ob : Option (Heap V)}
+    {h h' : Heap V} {k : Nat} {er : Bool} (H : AgreeOn A h' h) :
+    WInv p A h₀ ph ob h k er → WInv p A h₀ ph ob h' k er := by
+  cases ph with
+  | idle => exact fun ⟨a, b, c⟩ => ⟨a, b, H.trans c⟩
+  | spawned => exact fun ⟨a, b, c⟩ => ⟨a, b, H.trans c⟩
+  | running =>
+    rintro (⟨a, b⟩ | ⟨a, b, c⟩)
+    · exact Or.inl ⟨a, b.heap_congr H⟩
+    · exact Or.inr ⟨a, b, H.trans c⟩
+  | saved => exact fun ⟨a, b⟩ => ⟨a, b.heap_congr H⟩
+  | released => exact Ended.heap_congr H
+  | finished => exact Ended.heap_congr H
+
+/-- every run is on the trajectory of its solo execution from the initial heap, on its own cells -/
+def Tr (cfg : Config V) (ft : Footprint) (h₀ : Heap V) (s : State V) : Prop :=
+  ∀ i, i < cfg.runs →
+    WInv (cfg.prog i) (Own ft i) h₀ (s.phase i) (s.obs i) s.heap (s.steps i) (s.err i)
+
+theorem Tr.init (cfg : Config V) (ft : Footprint) (h₀ : Heap V) : Tr cfg ft h₀ (init cfg h₀) :=
+  fun _ _ => ⟨rfl, rfl, AgreeOn.refl _ _⟩
+
+/-- a transformer of run `i` leaves the own cells of every other run alone -/
+theorem others_untouched {cfg : Config V} {ft : Footprint} (hp : ClonePrivate cfg ft) {i : Nat} (hi : i < cfg.runs)
+    {f : Heap V → Heap V} (hf : TRespects f (ft.R i) (ft.W i)) (h : Heap V) :
+    ∀ j, j < cfg.runs → j ≠ i → AgreeOn (Own ft j) (f h) h :=
+  fun _ hj hji => hf.untouched (own_not_written hp.disjoint hj hi (Ne.symm hji)) h
+
+/-- an event of run `i` that changes nothing of the other workers but (possibly) cells that are not
+    theirs keeps the other workers' invariants -/
+theorem Tr.others {cfg : Config V} {ft : Footprint} {h₀ : Heap V} {s : State V} (s' : State V) {i : Nat}
+    (hT : Tr cfg ft h₀ s)
+    (hheap : ∀ j, j < cfg.runs → j ≠ i → AgreeOn (Own ft j) s'.heap s.heap)
+    (hph : ∀ j, j ≠ i → s'.phase j = s.phase j) (hob : ∀ j, j ≠ i → s'.obs j = s.obs j)
+    (hst : ∀ j, j ≠ i → s'.steps j = s.steps j) (her : ∀ j, j ≠ i → s'.err j = s.err j) :
+    ∀ j, j < cfg.runs → j ≠ i →
+      WInv (cfg.prog j) (Own ft j) h₀ (s'.phase j) (s'.obs j) s'.heap (s'.steps j) (s'.err j) := by
+  intro j hj hji
+  rw [hph j hji, hob j hji, hst j hji, her j hji]
+  exact (hT j hj).heap_congr (hheap j hj hji)
+
+theorem Tr.exec {cfg : Config V} {ft : Footprint} {h₀ : Heap V} {s s' : State V} {e : Ev}
+    (hp : ClonePrivate cfg ft) (hB : Book cfg s) (hT : Tr cfg ft h₀ s) (h : exec cfg s e = some s') :
+    Tr cfg ft h₀ s' := by
+  have hlt : ∀ i, s.phase i ≠ .idle → i < cfg.runs := fun i hi => Nat.lt_of_lt_of_le (hB.lt_next hi) hB.next_le
+  cases e with
+  | spawn =>
+    simp only [Runs.exec] at h
+    split at h
+    · cases h
+      intro j hj
+      have := hT j hj
+      by_cases hjn : j = s.next
+      · have e1 : upd s.phase s.next Phase.spawned j = .spawned := by rw [hjn]; exact upd_same _ _ _
+        rw [hB.idle_ge j (by omega)] at this
+        simpa only [e1, WInv] using this
+      · simpa only [upd_ne _ _ hjn] using this
+    · cases h
+  | clone i =>
+    simp only [Runs.exec] at h
+    split at h
+    · rename_i hc
+      obtain ⟨_, hph⟩ := hc
+      have hi := hlt i (by rw [hph]; decide)
+      have hR := hp.respects i hi
+      have hwi := hT i hi
+      rw [hph] at hwi
+      obtain ⟨he, hk, hag⟩ := hwi
+      have hagR : AgreeOn (· ∈ ft.R i) s.heap h₀ := hag.mono (read_own hp.disjoint hi)
+      split at h
+      · rename_i hf
+        have hf0 : (cfg.prog i).cloneFails h₀ = true := by rw [← hR.cloneFails _ _ hagR]; exact hf
+        split at h
+        · cases h
+          intro j hj
+          by_cases hji : j = i
+          · subst hji
+            simp only [upd_same]
+            exact Or.inl ⟨rfl, Or.inl ⟨hk, hf0, hag⟩⟩
+          · exact Tr.others { s with phase := upd s.phase i .running, err := upd s.err i true } hT
+              (fun _ _ _ => AgreeOn.refl _ _) (fun j hj => upd_ne _ _ hj) (fun _ _ => rfl)
+              (fun _ _ => rfl) (fun j hj => upd_ne _ _ hj) j hj hji
+        · cases h; exact hT
+      · rename_i hf
+        cases h
+        have hf0 : (cfg.prog i).cloneFails h₀ = false := by
+          rw [← hR.cloneFails _ _ hagR]
+          cases hcf : (cfg.prog i).cloneFails s.heap with
+          | false => rfl
+          | true => exact absurd hcf hf
+        intro j hj
+        by_cases hji : j = i
+        · subst hji
+          have hnew : AgreeOn (Own ft j) ((cfg.prog j).clone s.heap) ((cfg.prog j).clone h₀) :=
+            hR.clone.agree (read_own hp.disjoint hi) hag
+          simp only [upd_same]
+          refine Or.inr ⟨he, ⟨hf0, ⟨_, rfl, hnew⟩, ?_⟩, ?_⟩
+          · intro k hk'; omega
+          · rw [hk]; exact hnew
+        · exact Tr.others { s with phase := upd s.phase i .running, heap := (cfg.prog i).clone s.heap,
+                                     obs := upd s.obs i (some ((cfg.prog i).clone s.heap)) } hT
+            (others_untouched hp hi hR.clone s.heap) (fun j hj => upd_ne _ _ hj)
+            (fun j hj => upd_ne _ _ hj) (fun _ _ => rfl) (fun _ _ => rfl) j hj hji
+    · cases h
+  | step i =>
+    simp only [Runs.exec] at h
+    split at h
+    · rename_i hc
+      obtain ⟨_, hph, herr, hd⟩ := hc
+      have hi := hlt i (by rw [hph]; decide)
+      have hR := hp.respects i hi
+      have hwi := hT i hi
+      rw [hph] at hwi
+      rcases hwi with ⟨he, _⟩ | ⟨_, hcore, hag⟩
+      · rw [herr] at he; cases he
+      have hagR : AgreeOn (· ∈ ft.R i) s.heap (tr (cfg.prog i) h₀ (s.steps i)) := hag.mono (read_own hp.disjoint hi)
+      have hd0 : (cfg.prog i).done (tr (cfg.prog i) h₀ (s.steps i)) = false := by
+        rw [← hR.done _ _ hagR]; exact hd
+      split at h
+      · rename_i hf
+        cases h
+        have hf0 : (cfg.prog i).fails (tr (cfg.prog i) h₀ (s.steps i)) = true := by
+          rw [← hR.fails _ _ hagR]; exact hf
+        rcases panicked_cases cfg s i with ⟨e1, _, _⟩ | ⟨e1, _, _⟩
+        · intro j hj
+          by_cases hji : j = i
+          · subst hji
+            rw [panicked_phase, panicked_obs, panicked_heap, panicked_steps, e1, upd_same, hph]
+            exact Or.inl ⟨rfl, Or.inr (Or.inl ⟨hcore, hag, hd0, hf0⟩)⟩
+          · exact Tr.others (panicked cfg s i) hT (fun _ _ _ => by rw [panicked_heap]; exact AgreeOn.refl _ _)
+              (fun _ _ => by rw [panicked_phase]) (fun _ _ => by rw [panicked_obs])
+              (fun _ _ => by rw [panicked_steps]) (fun j hj => by rw [e1]; exact upd_ne _ _ hj) j hj hji
+        · intro j hj
+          rw [panicked_phase, panicked_obs, panicked_heap, panicked_steps, e1]; exact hT j hj
+      · rename_i hf
+        cases h
+        have hf0 : (cfg.prog i).fails (tr (cfg.prog i) h₀ (s.steps i)) = false := by
+          rw [← hR.fails _ _ hagR]
+          cases hcf : (cfg.prog i).fails s.heap with
+          | false => rfl
+          | true => exact absurd hcf hf
+        intro j hj
+        by_cases hji : j = i
+        · subst hji
+          simp only [upd_same, hph]
+          refine Or.inr ⟨herr, ⟨hcore.cloned, hcore.obs, ?_⟩, ?_⟩
+          · intro k hk
+            by_cases hks : k = s.steps j
+            · subst hks; exact ⟨hd0, hf0⟩
+            · exact hcore.path k (by omega)
+          · rw [tr_succ]; exact hR.step.agree (read_own hp.disjoint hi) hag
+        · exact Tr.others { s with heap := (cfg.prog i).step s.heap, steps := upd s.steps i (s.steps i + 1) } hT
+            (others_untouched hp hi hR.step s.heap) (fun _ _ => rfl) (fun _ _ => rfl)
+            (fun j hj => upd_ne _ _ hj) (fun _ _ => rfl) j hj hji
+    · cases h
+  | finish i =>
+    simp only [Runs.exec] at h
+    split at h
+    · rename_i hc
+      obtain ⟨_, hph, herr, hd⟩ := hc
+      have hi := hlt i (by rw [hph]; decide)
+      have hR := hp.respects i hi
+      have hwi := hT i hi
+      rw [hph] at hwi
+      rcases hwi with ⟨he, _⟩ | ⟨_, hcore, hag⟩
+      · rw [herr] at he; cases he
+      have hagR : AgreeOn (· ∈ ft.R i) s.heap (tr (cfg.prog i) h₀ (s.steps i)) := hag.mono (read_own hp.disjoint hi)
+      have hd0 : (cfg.prog i).done (tr (cfg.prog i) h₀ (s.steps i)) = true := by
+        rw [← hR.done _ _ hagR]; exact hd
+      split at h
+      · rename_i hf
+        cases h
+        have hf0 : (cfg.prog i).finishFails (tr (cfg.prog i) h₀ (s.steps i)) = true := by
+          rw [← hR.finishFails _ _ hagR]; exact hf
+        rcases panicked_cases cfg s i with ⟨e1, _, _⟩ | ⟨e1, _, _⟩
+        · intro j hj
+          by_cases hji : j = i
+          · subst hji
+            rw [panicked_phase, panicked_obs, panicked_heap, panicked_steps, e1, upd_same, hph]
+            exact Or.inl ⟨rfl, Or.inr (Or.inr ⟨hcore, hag, hd0, hf0⟩)⟩
+          · exact Tr.others (panicked cfg s i) hT (fun _ _ _ => by rw [panicked_heap]; exact AgreeOn.refl _ _)
+              (fun _ _ => by rw [panicked_phase]) (fun _ _ => by rw [panicked_obs])
+              (fun _ _ => by rw [panicked_steps]) (fun j hj => by rw [e1]; exact upd_ne _ _ hj) j hj hji
+        · intro j hj
+          rw [panicked_phase, panicked_obs, panicked_heap, panicked_steps, e1]; exact hT j hj
+      · rename_i hf
+        cases h
+        have hf0 : (cfg.prog i).finishFails (tr (cfg.prog i) h₀ (s.steps i)) = false := by
+          rw [← hR.finishFails _ _ hagR]
+          cases hcf : (cfg.prog i).finishFails s.heap with
+          | false => rfl
+          | true => exact absurd hcf hf
+        intro j hj
+        by_cases hji : j = i
+        · subst hji
+          simp only [upd_same]
+          exact ⟨herr, hcore, hR.finish.agree (read_own hp.disjoint hi) hag, hd0, hf0⟩
+        · exact Tr.others { s with heap := (cfg.prog i).finish s.heap, phase := upd s.phase i .saved } hT
+            (others_untouched hp hi hR.finish s.heap) (fun j hj => upd_ne _ _ hj) (fun _ _ => rfl)
+            (fun _ _ => rfl) (fun _ _ => rfl) j hj hji
+    · cases h
+  | release i =>
+    simp only [Runs.exec] at h
+    split at h
+    · rename_i hc
+      cases h
+      obtain ⟨_, hrel⟩ := hc
+      intro j hj
+      have hw := hT j hj
+      by_cases hji : j = i
+      · subst hji
+        simp only [upd_same]
+        rcases hrel with ⟨hph, he⟩ | hph
+        · rw [hph] at hw
+          rcases hw with ⟨_, hs⟩ | ⟨he', _⟩
+          · exact Or.inl ⟨he, hs⟩
+          · rw [he] at he'; cases he'
+        · rw [hph] at hw
+          exact Or.inr hw
+      · simpa only [upd_ne _ _ hji] using hw
+    · cases h
+  | wgDone i =>
+    simp only [Runs.exec] at h
+    split at h
+    · rename_i hc
+      cases h
+      obtain ⟨_, hph⟩ := hc
+      intro j hj
+      have hw := hT j hj
+      by_cases hji : j = i
+      · subst hji
+        rw [hph] at hw
+        simpa only [upd_same, WInv] using hw
+      · simpa only [upd_ne _ _ hji] using hw
+    · cases h
+  | ret =>
+    simp only [Runs.exec] at h
+    split at h
+    · cases h; exact hT
+    · cases h
+
+theorem Tr.run {cfg : Config V} {ft : Footprint} (hp : ClonePrivate cfg ft) {h₀ : Heap V} {sch : List Ev}
+    {s : State V} (h : Runs.run cfg (Runs.init cfg h₀) sch = some s) :
+    Book cfg s ∧ Tr cfg ft h₀ s :=
+  run_induction cfg (fun s => Book cfg s ∧ Tr cfg ft h₀ s)
+    (fun _ _ _ hI he => ⟨hI.1.exec he, Tr.exec hp hI.1 hI.2 he⟩) sch _ _
+    ⟨Book.init cfg h₀, Tr.init cfg ft h₀⟩ h
+
+
+/-! ### solo runs -/
+
+/-- a run that neither finishes nor fails during its first `n` iterations continues from there -/
+theorem soloFrom_iter (p : Prog V) (n m : Nat) (h : Heap V)
+    (hp : ∀ k, k < n → p.done (iter p.step k h) = false ∧ p.fails (iter p.step k h) = false) :
+    soloFrom p (n + m) h = soloFrom p m (iter p.step n h) := by
+  induction n generalizing h with
+  | zero => simp [iter]
+  | succ n ih =>
+    have h0 := hp 0 (Nat.succ_pos n)
+    simp only [iter] at h0
+    have : n + 1 + m = (n + m) + 1 := by omega
+    rw [this]
+    simp only [soloFrom, h0.1, h0.2, iter]
+    apply ih
+    intro k hk
+    have := hp (k + 1) (by omega)
+    simpa only [iter] using this
+
+theorem soloFrom_saved (p : Prog V) (m : Nat) (h : Heap V) (hd : p.done h = true) (hf : p.finishFails h = false) :
+    soloFrom p m h = .finished (p.finish h) := by
+  cases m <;> simp [soloFrom, hd, hf]
+
+theorem soloFrom_finishFails (p : Prog V) (m : Nat) (h : Heap V) (hd : p.done h = true) (hf : p.finishFails h = true) :
+    soloFrom p m h = .failed h := by
+  cases m <;> simp [soloFrom, hd, hf]
+
+theorem soloFrom_fails (p : Prog V) (m : Nat) (h : Heap V) (hd : p.done h = false) (hf : p.fails h = true) :
+    soloFrom p m h = .failed h := by
+  cases m <;> simp [soloFrom, hd, hf]
+
+theorem solo_core {p : Prog V} {A : Nat → Prop} {h₀ : Heap V} {ob : Option (Heap V)} {k : Nat}
+    (hc : Core p A h₀ ob k) (m : Nat) : solo p (k + m) h₀ = soloFrom p m (tr p h₀ k) := by
+  unfold solo
+  rw [hc.cloned]
+  simp only [Bool.false_eq_true, if_false]
+  exact soloFrom_iter p k m _ hc.path
+
+/-- a stopped run: the run alone fails, in a heap that agrees on the run's own cells -/
+theorem solo_of_stopped {p : Prog V} {A : Nat → Prop} {h₀ : Heap V} {ob : Option (Heap V)} {h : Heap V} {k : Nat}
+    (H : Stopped p A h₀ ob h k) (fuel : Nat) (hf : k ≤ fuel) :
+    ∃ h', solo p fuel h₀ = .failed h' ∧ AgreeOn A h h' := by
+  obtain ⟨m, rfl⟩ : ∃ m, fuel = k + m := ⟨fuel - k, by omega⟩
+  rcases H with ⟨_, hcf, hag⟩ | ⟨hc, hag, hd, hfl⟩ | ⟨hc, hag, hd, hfl⟩
+  · exact ⟨h₀, by unfold solo; rw [hcf]; rfl, hag⟩
+  · exact ⟨_, by rw [solo_core hc m]; exact soloFrom_fails p m _ hd hfl, hag⟩
+  · exact ⟨_, by rw [solo_core hc m]; exact soloFrom_finishFails p m _ hd hfl, hag⟩
+
+/-- a run that has saved: the run alone finishes, in a heap that agrees on the run's own cells -/
+theorem solo_of_saved {p : Prog V} {A : Nat → Prop} {h₀ : Heap V} {ob : Option (Heap V)} {h : Heap V} {k : Nat}
+    (H : Saved p A h₀ ob h k) (fuel : Nat) (hf : k ≤ fuel) :
+    ∃ h', solo p fuel h₀ = .finished h' ∧ AgreeOn A h h' := by
+  obtain ⟨m, rfl⟩ : ∃ m, fuel = k + m := ⟨fuel - k, by omega⟩
+  obtain ⟨hc, hag, hd, hfl⟩ := H
+  exact ⟨_, by rw [solo_core hc m]; exact soloFrom_saved p m _ hd hfl, hag⟩
+
+theorem solo_of_ended {p : Prog V} {A : Nat → Prop} {h₀ : Heap V} {ob : Option (Heap V)} {h : Heap V} {k : Nat}
+    {er : Bool} (H : Ended p A h₀ ob h k er) (fuel : Nat) (hf : k ≤ fuel) :
+    Outcome.SameOn A (if er then .failed h else .finished h) (solo p fuel h₀) := by
+  rcases H with ⟨he, hs⟩ | ⟨he, hs⟩
+  · obtain ⟨h', e1, hag⟩ := solo_of_stopped hs fuel hf
+    rw [he, e1]; exact hag
+  · obtain ⟨h', e1, hag⟩ := solo_of_saved hs fuel hf
+    rw [he, e1]; exact hag
+
+/-! ### termination measure (needs the trace invariant: a run that others write to need not end) -/
+
+/-- the run alone never takes more than `B i` iterations (for an annealer: `MaximumIterations`) -/
+def Terminates (cfg : Config V) (h₀ : Heap V) (B : Nat → Nat) : Prop :=
+  ∀ i, i < cfg.runs → ∀ k,
+    (∀ j, j < k → (cfg.prog i).done (tr (cfg.prog i) h₀ j) = false ∧ (cfg.prog i).fails (tr (cfg.prog i) h₀ j) = false) →
+    k ≤ B i
+
+def weightOf (b : Nat) (ph : Phase) (er : Bool) (k : Nat) : Nat :=
+  match ph with
+  | .idle => b + 6
+  | .spawned => b + 5
+  | .running => if er then 2 else (b - k) + 4
+  | .saved => 3
   | .released => 1
   | .finished => 0
 
-def weight (cfg : Config Sh P C) (μ : P → Nat) (s : State P C) (i : Nat) : Nat :=
-  weightOf μ (cfg.initP i) (s.phase i) (s.err i) (s.priv i)
+def weight (B : Nat → Nat) (s : State V) (i : Nat) : Nat :=
+  weightOf (B i) (s.phase i) (s.err i) (s.steps i)
 
-def measure (cfg : Config Sh P C) (μ : P → Nat) (s : State P C) : Nat :=
-  sumN (weight cfg μ s) cfg.runs + (if s.returned then 0 else 1) + (if s.crashed then 0 else 1)
+def measure (cfg : Config V) (B : Nat → Nat) (s : State V) : Nat :=
+  sumN (weight B s) cfg.runs + (if s.returned then 0 else 1) + (if s.crashed then 0 else 1)
 
-theorem measure_lt_of_weight {cfg : Config Sh P C} {μ : P → Nat} {s s' : State P C} {i : Nat}
-    (hi : i < cfg.runs) (hw : weight cfg μ s' i < weight cfg μ s i)
-    (ho : ∀ j, j ≠ i → weight cfg μ s' j = weight cfg μ s j)
+theorem measure_lt_of_weight {cfg : Config V} {B : Nat → Nat} {s s' : State V} {i : Nat}
+    (hi : i < cfg.runs) (hw : weight B s' i < weight B s i)
+    (ho : ∀ j, j ≠ i → weight B s' j = weight B s j)
     (hr : s'.returned = s.returned) (hc : s'.crashed = s.crashed) :
-    measure cfg μ s' < measure cfg μ s := by
-  have := sumN_lt (f := weight cfg μ s) (f' := weight cfg μ s') hi hw (fun j _ hj => ho j hj)
+    measure cfg B s' < measure cfg B s := by
+  have := sumN_lt (f := weight B s) (f' := weight B s') hi hw (fun j _ hj => ho j hj)
   simp only [measure, hr, hc]; omega
 
-theorem measure_dec {cfg : Config Sh P C} {μ : P → Nat} {s s' : State P C} {e : Ev} (hB : Book cfg s)
-    (hμ : Terminates cfg μ) (h : exec cfg s e = some s') : measure cfg μ s' < measure cfg μ s := by
+/-- a panic of run `i` (running, no error yet) decreases the measure -/
+theorem measure_panicked {cfg : Config V} {B : Nat → Nat} {s : State V} {i : Nat} (hi : i < cfg.runs)
+    (hcr : s.crashed = false) (hph : s.phase i = .running) (herr : s.err i = false) :
+    measure cfg B (panicked cfg s i) < measure cfg B s := by
+  rcases panicked_cases cfg s i with ⟨e1, e2, _⟩ | ⟨e1, e2, _⟩
+  · apply measure_lt_of_weight hi
+    · simp only [weight, panicked_phase, panicked_steps, e1, upd_same, hph, herr, weightOf]; simp
+    · intro j hj; simp only [weight, panicked_phase, panicked_steps, e1, upd_ne _ _ hj]
+    · simp
+    · exact e2
+  · have hs : sumN (weight B (panicked cfg s i)) cfg.runs = sumN (weight B s) cfg.runs :=
+      sumN_congr (fun j _ => by simp only [weight, panicked_phase, panicked_steps, e1])
+    simp only [measure, hs, panicked_returned, e2, hcr]; simp
+
+theorem measure_dec {cfg : Config V} {ft : Footprint} {h₀ : Heap V} {B : Nat → Nat} {s s' : State V} {e : Ev}
+    (hB : Book cfg s) (hT' : Tr cfg ft h₀ s') (hμ : Terminates cfg h₀ B) (h : exec cfg s e = some s') :
+    measure cfg B s' < measure cfg B s := by
   have hlt : ∀ i, s.phase i ≠ .idle → i < cfg.runs := fun i hi => Nat.lt_of_lt_of_le (hB.lt_next hi) hB.next_le
   cases e with
   | spawn =>
@@ -476,14 +1010,26 @@ theorem measure_dec {cfg : Config Sh P C} {μ : P → Nat} {s s' : State P C} {e
     simp only [Runs.exec] at h
     split at h
     · rename_i hc
-      cases h
-      obtain ⟨_, hph⟩ := hc
+      obtain ⟨hcr, hph⟩ := hc
       have hi := hlt i (by rw [hph]; decide)
-      apply measure_lt_of_weight hi
-      · simp only [weight, upd_same, hph, weightOf]; split <;> omega
-      · intro j hj; simp only [weight, upd_ne _ _ hj]
-      · rfl
-      · rfl
+      split at h
+      · split at h
+        · cases h
+          apply measure_lt_of_weight hi
+          · simp only [weight, upd_same, hph, weightOf]; simp
+          · intro j hj; simp only [weight, upd_ne _ _ hj]
+          · rfl
+          · rfl
+        · cases h
+          have hs : sumN (weight B { s with crashed := true }) cfg.runs = sumN (weight B s) cfg.runs :=
+            sumN_congr (fun _ _ => rfl)
+          simp only [measure, hcr, hs]; simp
+      · cases h
+        apply measure_lt_of_weight hi
+        · simp only [weight, upd_same, hph, weightOf]; split <;> omega
+        · intro j hj; simp only [weight, upd_ne _ _ hj]
+        · rfl
+        · rfl
     · cases h
   | step i =>
     simp only [Runs.exec] at h
@@ -492,28 +1038,32 @@ theorem measure_dec {cfg : Config Sh P C} {μ : P → Nat} {s s' : State P C} {e
       obtain ⟨hcr, hph, herr, hd⟩ := hc
       have hi := hlt i (by rw [hph]; decide)
       split at h
-      · split at h
-        · cases h
-          apply measure_lt_of_weight hi
-          · simp only [weight, upd_same, hph, herr, weightOf]; simp
-          · intro j hj; simp only [weight, upd_ne _ _ hj]
-          · rfl
-          · rfl
-        · cases h
-          have hs : sumN (weight cfg μ { s with crashed := true }) cfg.runs = sumN (weight cfg μ s) cfg.runs :=
-            sumN_congr (fun _ _ => rfl)
-          simp only [measure, hcr, hs]; simp
-      · rename_i hf
-        cases h
-        have hf' : cfg.fails cfg.shared (loc cfg s i) = false := by
-          cases h : cfg.fails cfg.shared (loc cfg s i) with
-          | false => rfl
-          | true => exact absurd h hf
-        have hdec := hμ (loc cfg s i) hd hf'
+      · cases h; exact measure_panicked hi hcr hph herr
+      · cases h
+        -- after the step the run is on its solo path with `steps i + 1` iterations: that many fit in `B i`
+        have hw := hT' i hi
+        simp only [upd_same, hph] at hw
+        have hk : s.steps i + 1 ≤ B i := by
+          rcases hw with ⟨he, _⟩ | ⟨_, hcore, _⟩
+          · rw [herr] at he; cases he
+          · exact hμ i hi _ hcore.path
         apply measure_lt_of_weight hi
-        · simp only [weight, upd_same, hph, herr, weightOf]
-          simp only [loc] at hdec
-          simp; exact hdec
+        · simp only [weight, upd_same, hph, herr, weightOf]; simp; omega
+        · intro j hj; simp only [weight, upd_ne _ _ hj]
+        · rfl
+        · rfl
+    · cases h
+  | finish i =>
+    simp only [Runs.exec] at h
+    split at h
+    · rename_i hc
+      obtain ⟨hcr, hph, herr, hd⟩ := hc
+      have hi := hlt i (by rw [hph]; decide)
+      split at h
+      · cases h; exact measure_panicked hi hcr hph herr
+      · cases h
+        apply measure_lt_of_weight hi
+        · simp only [weight, upd_same, hph, herr, weightOf]; simp
         · intro j hj; simp only [weight, upd_ne _ _ hj]
         · rfl
         · rfl
@@ -523,10 +1073,14 @@ theorem measure_dec {cfg : Config Sh P C} {μ : P → Nat} {s s' : State P C} {e
     split at h
     · rename_i hc
       cases h
-      obtain ⟨_, hph, _⟩ := hc
-      have hi := hlt i (by rw [hph]; decide)
+      obtain ⟨_, hrel⟩ := hc
+      have hne : s.phase i ≠ .idle := by
+        rcases hrel with ⟨h1, _⟩ | h1 <;> (rw [h1]; decide)
+      have hi := hlt i hne
       apply measure_lt_of_weight hi
-      · simp only [weight, upd_same, hph, weightOf]; split <;> omega
+      · rcases hrel with ⟨h1, h2⟩ | h1
+        · simp only [weight, upd_same, h1, h2, weightOf]; simp
+        · simp only [weight, upd_same, h1, weightOf]; omega
       · intro j hj; simp only [weight, upd_ne _ _ hj]
       · rfl
       · rfl
@@ -550,184 +1104,205 @@ theorem measure_dec {cfg : Config Sh P C} {μ : P → Nat} {s s' : State P C} {e
     · rename_i hc
       cases h
       obtain ⟨_, hr, _, _⟩ := hc
-      have hs : sumN (weight cfg μ { s with returned := true }) cfg.runs = sumN (weight cfg μ s) cfg.runs :=
+      have hs : sumN (weight B { s with returned := true }) cfg.runs = sumN (weight B s) cfg.runs :=
         sumN_congr (fun _ _ => rfl)
       simp only [measure, hr, hs]; simp
     · cases h
 
-/-! ### the per-worker trace invariant (needs `ClonePrivate`) -/
 
-/-- what is known about a started run whose local state is `l` after `k` steps from `l₀` -/
-def Core (w : Worker Sh P C) (sh : Sh) (l₀ : P × C) (ob : Option (P × C)) (l : P × C) (k : Nat) (er : Bool) : Prop :=
-  ob = some l₀ ∧ l = iter (w.step sh) k l₀ ∧
-  (∀ j, j < k → w.done sh (iter (w.step sh) j l₀) = false ∧ w.fails sh (iter (w.step sh) j l₀) = false) ∧
-  (er = true → w.done sh l = false ∧ w.fails sh l = true)
+/-! ### footprints of programs written as a sequence of writes -/
 
-def WInv (w : Worker Sh P C) (sh : Sh) (l₀ : P × C) (ph : Phase) (ob : Option (P × C)) (l : P × C)
-    (k : Nat) (er : Bool) : Prop :=
-  match ph with
-  | .idle => er = false ∧ k = 0
-  | .spawned => er = false ∧ k = 0
-  | .running => Core w sh l₀ ob l k er
-  | .released => Core w sh l₀ ob l k er ∧ (er = true ∨ w.done sh l = true)
-  | .finished => Core w sh l₀ ob l k er ∧ (er = true ∨ w.done sh l = true)
+theorem TRespects.congr {f g : Heap V → Heap V} {R W : List Nat} (hf : TRespects f R W) (e : ∀ h, f h = g h) :
+    TRespects g R W := by
+  have : f = g := funext e
+  rw [← this]; exact hf
 
-/-- the template's cell is never written, and every run is on its solo trajectory -/
-structure Tr (cfg : Config Sh P C) (c₀ : C) (s : State P C) : Prop where
-  tmpl_cell : s.cells cfg.tmpl = c₀
-  worker : ∀ i, i < cfg.runs →
-    WInv cfg.toWorker cfg.shared (cfg.initP i, c₀) (s.phase i) (s.obs i) (loc cfg s i) (s.steps i) (s.err i)
+/-- `f` respects `(R, W)`, and the cells of `D` have definitely been written from cells of `R` -/
+structure Chain (f : Heap V → Heap V) (R W D : List Nat) : Prop where
+  resp : TRespects f R W
+  det : ∀ h h', AgreeOn (· ∈ R) h h' → ∀ a, a ∈ D → f h a = f h' a
 
-theorem Tr.init (cfg : Config Sh P C) (cells₀ : Nat → C) : Tr cfg (cells₀ cfg.tmpl) (init cfg cells₀) where
-  tmpl_cell := rfl
-  worker := fun _ _ => ⟨rfl, rfl⟩
+theorem Chain.id (R W : List Nat) : Chain (fun h : Heap V => h) R W [] :=
+  ⟨TRespects.id R W, fun _ _ _ _ ha => by cases ha⟩
 
-theorem Tr.exec {cfg : Config Sh P C} {c₀ : C} {s s' : State P C} {e : Ev} (hp : ClonePrivate cfg)
-    (hB : Book cfg s) (hT : Tr cfg c₀ s) (h : exec cfg s e = some s') : Tr cfg c₀ s' := by
+/-- after a chain: write to a cell of `W` a value computed from cells that are read (`R`) or have
+    been written earlier in the chain (`D`) -/
+theorem Chain.write {f : Heap V → Heap V} {R W D : List Nat} (hc : Chain f R W D) (x : Nat) (hx : x ∈ W)
+    (g : Heap V → V) (hg : ∀ h h', AgreeOn (fun a => a ∈ R ∨ a ∈ D) h h' → g h = g h') :
+    Chain (fun h => (f h).set x (g (f h))) R W (x :: D) := by
+  have hRD : ∀ h h', AgreeOn (· ∈ R) h h' → AgreeOn (fun a => a ∈ R ∨ a ∈ D) (f h) (f h') := by
+    intro h h' H a ha
+    rcases ha with ha | ha
+    · exact hc.resp.agree (fun _ h => h) H a ha
+    · exact hc.det h h' H a ha
+  refine ⟨⟨?_, ?_⟩, ?_⟩
+  · intro h a ha
+    have : a ≠ x := fun e => ha (e ▸ hx)
+    simp only [Heap.set_apply, this, if_false]
+    exact hc.resp.frame h a ha
+  · intro h h' H a ha
+    by_cases hax : a = x
+    · subst hax
+      left
+      simp only [Heap.set_apply, if_true]
+      exact hg _ _ (hRD h h' H)
+    · simp only [Heap.set_apply, hax, if_false]
+      exact hc.resp.loc h h' H a ha
+  · intro h h' H a ha
+    by_cases hax : a = x
+    · subst hax
+      simp only [Heap.set_apply, if_true]
+      exact hg _ _ (hRD h h' H)
+    · simp only [Heap.set_apply, hax, if_false]
+      rcases List.mem_cons.mp ha with e | e
+      · exact absurd e hax
+      · exact hc.det h h' H a e
+
+/-! ### the footprint of the annealing program, for EVERY layout -/
+
+theorem anneal_reads {lay : Layout} {inp : Inputs} {i : Nat} {D : List Nat} {h h' : Heap Nat}
+    (H : AgreeOn (fun a => a ∈ (annealFoot lay inp).R i ∨ a ∈ D) h h') :
+    h tmplCool = h' tmplCool ∧ h tmplIter = h' tmplIter ∧ h tmplModel = h' tmplModel ∧
+    h sharedData = h' sharedData ∧ h (lay.cool i) = h' (lay.cool i) ∧ h (lay.iter i) = h' (lay.iter i) ∧
+    h (lay.arch i) = h' (lay.arch i) ∧ h (lay.model i) = h' (lay.model i) ∧ h (lay.data i) = h' (lay.data i) := by
+  refine ⟨?_, ?_, ?_, ?_, ?_, ?_, ?_, ?_, ?_⟩ <;> exact H _ (Or.inl (by simp [annealFoot]))
+
+theorem annealProg_respects (lay : Layout) (inp : Inputs) (i : Nat) :
+    Respects (annealProg lay inp i) ((annealFoot lay inp).R i) ((annealFoot lay inp).W i) := by
+  have wc : lay.cool i ∈ (annealFoot lay inp).W i := by simp [annealFoot]
+  have wi : lay.iter i ∈ (annealFoot lay inp).W i := by simp [annealFoot]
+  have wa : lay.arch i ∈ (annealFoot lay inp).W i := by simp [annealFoot]
+  have wm : lay.model i ∈ (annealFoot lay inp).W i := by simp [annealFoot]
+  have wd : lay.data i ∈ (annealFoot lay inp).W i := by simp [annealFoot]
+  have wo : lay.out i ∈ (annealFoot lay inp).W i := by simp [annealFoot]
+  have ws : saverScratch ∈ (annealFoot lay inp).W i := by simp [annealFoot]
+  have c0 := Chain.id (V := Nat) ((annealFoot lay inp).R i) ((annealFoot lay inp).W i)
+  refine ⟨?_, ?_, ?_, ?_, ?_, ?_, ?_⟩
+  · -- clone
+    have c5 := (((c0.write (lay.cool i) wc (fun h => h tmplCool) (fun _ _ H => (anneal_reads H).1)).write
+      (lay.iter i) wi (fun h => h tmplIter) (fun _ _ H => (anneal_reads H).2.1)).write
+      (lay.model i) wm (fun h => h tmplModel) (fun _ _ H => (anneal_reads H).2.2.1)).write
+      (lay.arch i) wa (fun _ => 0) (fun _ _ _ => rfl)
+    have c6 := (c5.write (lay.data i) wd (fun h => h sharedData) (fun _ _ H => (anneal_reads H).2.2.2.1)).write
+      (lay.model i) wm (fun h => inp.modelInit i (h (lay.model i)) (h (lay.data i)))
+        (fun _ _ H => by rw [(anneal_reads H).2.2.2.2.2.2.2.1, (anneal_reads H).2.2.2.2.2.2.2.2])
+    cases hinv : inp.invObserver with
+    | false => exact c6.resp.congr (fun h => by simp [annealProg, hinv])
+    | true =>
+      have wobs : obsState ∈ (annealFoot lay inp).W i := by simp [annealFoot, hinv]
+      have c7 := c6.write obsState wobs (fun h => h (lay.model i)) (fun _ _ H => (anneal_reads H).2.2.2.2.2.2.2.1)
+      exact c7.resp.congr (fun h => by simp [annealProg, hinv])
+  · -- step
+    have c4 := (((c0.write (lay.iter i) wi (fun h => h (lay.iter i) + 1)
+        (fun _ _ H => by rw [(anneal_reads H).2.2.2.2.2.1])).write
+      (lay.model i) wm (fun h => inp.modelAfter i (h (lay.iter i)) (h (lay.model i)) (h (lay.data i)))
+        (fun _ _ H => by
+          rw [(anneal_reads H).2.2.2.2.2.1, (anneal_reads H).2.2.2.2.2.2.2.1, (anneal_reads H).2.2.2.2.2.2.2.2])).write
+      (lay.arch i) wa (fun h => inp.archiveAfter i (h (lay.iter i)) (h (lay.arch i)) (h (lay.model i)))
+        (fun _ _ H => by
+          rw [(anneal_reads H).2.2.2.2.2.1, (anneal_reads H).2.2.2.2.2.2.1, (anneal_reads H).2.2.2.2.2.2.2.1])).write
+      (lay.cool i) wc (fun h => h (lay.cool i) + 1) (fun _ _ H => by rw [(anneal_reads H).2.2.2.2.1])
+    exact c4.resp.congr (fun h => by simp [annealProg])
+  · -- finish: the scratch cell is read after it has been written (it is in `D` by then)
+    have c2 := (c0.write saverScratch ws (fun h => h (lay.model i)) (fun _ _ H => (anneal_reads H).2.2.2.2.2.2.2.1)).write
+      (lay.out i) wo (fun h => inp.encode i (h saverScratch) (h (lay.arch i)) (h (lay.data i)))
+        (fun h h' H => by
+          rw [(anneal_reads H).2.2.2.2.2.2.1, (anneal_reads H).2.2.2.2.2.2.2.2, H saverScratch (Or.inr (by simp))])
+    exact c2.resp.congr (fun h => by simp [annealProg])
+  · intro h h' H
+    have := (anneal_reads (D := []) (H.mono (fun a ha => by simpa using ha))).2.2.2.1
+    simp only [annealProg, this]
+  · intro h h' H
+    have := (anneal_reads (D := []) (H.mono (fun a ha => by simpa using ha))).2.2.2.2.2.1
+    simp only [annealProg, this]
+  · intro h h' H
+    have := (anneal_reads (D := []) (H.mono (fun a ha => by simpa using ha))).2.2.2.2.2.1
+    simp only [annealProg, this]
+  · intro h h' _
+    rfl
+
+/-- the private layout: nothing a run writes is read or written by another, the saver's model excepted -/
+theorem privLayout_disjoint (inp : Inputs) (hinv : inp.invObserver = false) (runs : Nat) :
+    Disjoint runs (annealFoot privLayout inp) := by
+  refine ⟨?_, ?_⟩
+  · intro i _ j _ hij a hw hrw
+    simp only [annealFoot, privLayout, hinv, List.mem_append, List.mem_cons, List.not_mem_nil, or_false,
+      Bool.false_eq_true, if_false] at hw hrw ⊢
+    omega
+  · intro i _ a hl hr
+    simp only [annealFoot, privLayout, List.mem_cons, List.not_mem_nil, or_false] at hl hr
+    omega
+
+
+/-! ### cells nobody declares to write -/
+
+theorem exec_unwritten {cfg : Config V} {ft : Footprint} {s s' : State V} {e : Ev} (hp : ClonePrivate cfg ft)
+    (hB : Book cfg s) (h : exec cfg s e = some s') (a : Nat) (ha : ∀ i, i < cfg.runs → a ∉ ft.W i) :
+    s'.heap a = s.heap a := by
   have hlt : ∀ i, s.phase i ≠ .idle → i < cfg.runs := fun i hi => Nat.lt_of_lt_of_le (hB.lt_next hi) hB.next_le
   cases e with
-  | spawn =>
-    simp only [Runs.exec] at h
-    split at h
-    · cases h
-      refine ⟨hT.tmpl_cell, ?_⟩
-      intro j hj
-      have := hT.worker j hj
-      by_cases hjn : j = s.next
-      · have e1 : upd s.phase s.next Phase.spawned j = .spawned := by rw [hjn]; exact upd_same _ _ _
-        rw [hB.idle_ge j (by omega)] at this
-        simpa only [loc, e1, WInv] using this
-      · simpa only [loc, upd_ne _ _ hjn] using this
-    · cases h
+  | spawn => simp only [Runs.exec] at h; split at h <;> cases h; rfl
   | clone i =>
     simp only [Runs.exec] at h
     split at h
     · rename_i hc
-      cases h
-      obtain ⟨_, hph⟩ := hc
-      have hi := hlt i (by rw [hph]; decide)
-      refine ⟨?_, ?_⟩
-      · simp only
-        rw [upd_ne _ _ (Ne.symm (hp.1 i hi))]; exact hT.tmpl_cell
-      · intro j hj
-        have hw := hT.worker j hj
-        by_cases hji : j = i
-        · subst hji
-          rw [hph] at hw
-          obtain ⟨he, hk⟩ := hw
-          simp only [loc, upd_same, WInv, Core, hT.tmpl_cell, he, hk, iter]
-          refine ⟨?_, ?_, ?_, ?_⟩ <;> first | trivial | rfl | (intro k hk; omega) | (intro h; cases h)
-        · have hadr : cfg.addr j ≠ cfg.addr i := fun h => hji (hp.2 j hj i hi h)
-          simpa only [loc, upd_ne _ _ hji, upd_ne _ _ hadr] using hw
+      have hi := hlt i (by rw [hc.2]; decide)
+      split at h
+      · split at h <;> (cases h; rfl)
+      · cases h; exact (hp.respects i hi).clone.frame _ a (ha i hi)
     · cases h
   | step i =>
     simp only [Runs.exec] at h
     split at h
     · rename_i hc
-      obtain ⟨_, hph, herr, hd⟩ := hc
-      have hi := hlt i (by rw [hph]; decide)
-      have hwi := hT.worker i hi
-      rw [hph] at hwi
-      obtain ⟨hob, hl, hpath, _⟩ := hwi
+      have hi := hlt i (by rw [hc.2.1]; decide)
       split at h
-      · rename_i hf
-        split at h
-        · cases h
-          refine ⟨hT.tmpl_cell, ?_⟩
-          intro j hj
-          have hw := hT.worker j hj
-          by_cases hji : j = i
-          · subst hji
-            simp only [upd_same, hph, WInv, Core]
-            exact ⟨hob, hl, hpath, fun _ => ⟨hd, hf⟩⟩
-          · simpa only [loc, upd_ne _ _ hji] using hw
-        · cases h
-          exact ⟨hT.tmpl_cell, hT.worker⟩
-      · rename_i hf
-        cases h
-        have hf' : cfg.fails cfg.shared (loc cfg s i) = false := by
-          cases h : cfg.fails cfg.shared (loc cfg s i) with
-          | false => rfl
-          | true => exact absurd h hf
-        refine ⟨?_, ?_⟩
-        · simp only
-          rw [upd_ne _ _ (Ne.symm (hp.1 i hi))]; exact hT.tmpl_cell
-        · intro j hj
-          have hw := hT.worker j hj
-          by_cases hji : j = i
-          · subst hji
-            simp only [loc, upd_same, hph, WInv, Core, herr]
-            refine ⟨hob, ?_, ?_, ?_⟩
-            · rw [iter_succ', ← hl]; rfl
-            · intro k hk
-              by_cases hks : k = s.steps j
-              · subst hks; rw [← hl]; exact ⟨hd, hf'⟩
-              · exact hpath k (by omega)
-            · intro h; cases h
-          · have hadr : cfg.addr j ≠ cfg.addr i := fun h => hji (hp.2 j hj i hi h)
-            simpa only [loc, upd_ne _ _ hji, upd_ne _ _ hadr] using hw
+      · cases h; rw [panicked_heap]
+      · cases h; exact (hp.respects i hi).step.frame _ a (ha i hi)
     · cases h
-  | release i =>
+  | finish i =>
     simp only [Runs.exec] at h
     split at h
     · rename_i hc
-      cases h
-      obtain ⟨_, hph, hrel⟩ := hc
-      have hi := hlt i (by rw [hph]; decide)
-      refine ⟨hT.tmpl_cell, ?_⟩
-      intro j hj
-      have hw := hT.worker j hj
-      by_cases hji : j = i
-      · subst hji
-        rw [hph] at hw
-        simp only [upd_same, WInv]
-        exact ⟨hw, hrel⟩
-      · simpa only [loc, upd_ne _ _ hji] using hw
+      have hi := hlt i (by rw [hc.2.1]; decide)
+      split at h
+      · cases h; rw [panicked_heap]
+      · cases h; exact (hp.respects i hi).finish.frame _ a (ha i hi)
     · cases h
-  | wgDone i =>
-    simp only [Runs.exec] at h
-    split at h
-    · rename_i hc
-      cases h
-      obtain ⟨_, hph⟩ := hc
-      refine ⟨hT.tmpl_cell, ?_⟩
-      intro j hj
-      have hw := hT.worker j hj
-      by_cases hji : j = i
-      · subst hji
-        rw [hph] at hw
-        simpa only [loc, upd_same, WInv] using hw
-      · simpa only [loc, upd_ne _ _ hji] using hw
-    · cases h
-  | ret =>
-    simp only [Runs.exec] at h
-    split at h
-    · cases h; exact ⟨hT.tmpl_cell, hT.worker⟩
-    · cases h
+  | release i => simp only [Runs.exec] at h; split at h <;> cases h; rfl
+  | wgDone i => simp only [Runs.exec] at h; split at h <;> cases h; rfl
+  | ret => simp only [Runs.exec] at h; split at h <;> cases h; rfl
 
-theorem Tr.run {cfg : Config Sh P C} (hp : ClonePrivate cfg) {cells₀ : Nat → C} {sch : List Ev}
-    {s : State P C} (h : Runs.run cfg (Runs.init cfg cells₀) sch = some s) :
-    Book cfg s ∧ Tr cfg (cells₀ cfg.tmpl) s :=
-  run_induction cfg (fun s => Book cfg s ∧ Tr cfg (cells₀ cfg.tmpl) s)
-    (fun _ _ _ hI he => ⟨hI.1.exec he, Tr.exec hp hI.1 hI.2 he⟩) sch _ _
-    ⟨Book.init cfg cells₀, Tr.init cfg cells₀⟩ h
+theorem run_unwritten {cfg : Config V} {ft : Footprint} (hp : ClonePrivate cfg ft) {h₀ : Heap V} {sch : List Ev}
+    {s : State V} (h : run cfg (init cfg h₀) sch = some s) (a : Nat) (ha : ∀ i, i < cfg.runs → a ∉ ft.W i) :
+    s.heap a = h₀ a :=
+  (run_induction cfg (fun s => Book cfg s ∧ s.heap a = h₀ a)
+    (fun _ _ _ hI he => ⟨hI.1.exec he, (exec_unwritten hp hI.1 he a ha).trans hI.2⟩) sch _ _
+    ⟨Book.init cfg h₀, rfl⟩ h).2
 
-/-- from the trace invariant: a completed run is exactly its solo outcome -/
-theorem solo_of_core {w : Worker Sh P C} {sh : Sh} {l₀ l : P × C} {ob : Option (P × C)} {k : Nat} {er : Bool}
-    (hc : Core w sh l₀ ob l k er) (hend : er = true ∨ w.done sh l = true) (fuel : Nat) (hf : k ≤ fuel) :
-    solo w sh fuel l₀ = if er then .failed l else .finished l := by
-  obtain ⟨_, hl, hpath, herr⟩ := hc
-  obtain ⟨m, rfl⟩ : ∃ m, fuel = k + m := ⟨fuel - k, by omega⟩
-  rw [solo_iter w sh k m l₀ hpath, ← hl]
-  cases her : er with
-  | true =>
-    have := herr her
-    simp only [if_true]
-    exact solo_fails w sh m l this.1 this.2
-  | false =>
-    rcases hend with h | h
-    · rw [her] at h; cases h
-    · simp only [Bool.false_eq_true, if_false]
-      exact solo_done w sh m l h
+/-! ### values of the private layout -/
 
+theorem clone_priv_values (inp : Inputs) (hinv : inp.invObserver = false) (i : Nat) (h₀ : Heap Nat) :
+    (annealProg privLayout inp i).clone h₀ (privLayout.cool i) = h₀ tmplCool ∧
+    (annealProg privLayout inp i).clone h₀ (privLayout.iter i) = h₀ tmplIter ∧
+    (annealProg privLayout inp i).clone h₀ (privLayout.arch i) = 0 ∧
+    (annealProg privLayout inp i).clone h₀ (privLayout.data i) = h₀ sharedData := by
+  dsimp only [annealProg, privLayout]
+  simp only [hinv, Heap.set_apply, Bool.false_eq_true, if_false]
+  simp (disch := omega) only [if_pos, if_neg, ite_true, and_self]
+
+theorem iter_priv_value (inp : Inputs) (i : Nat) (h₀ : Heap Nat) (j : Nat) :
+    tr (annealProg privLayout inp i) h₀ j (privLayout.iter i) = h₀ tmplIter + j := by
+  induction j with
+  | zero =>
+    dsimp only [tr, iter, annealProg, privLayout]
+    split <;> simp only [Heap.set_apply] <;>
+      simp (disch := omega) only [if_pos, if_neg, ite_true, Nat.add_zero]
+  | succ j ih =>
+    rw [tr_succ]
+    generalize tr (annealProg privLayout inp i) h₀ j = h at ih ⊢
+    dsimp only [annealProg, privLayout] at ih ⊢
+    simp only [Heap.set_apply] at ih ⊢
+    simp (disch := omega) only [if_pos, if_neg, ite_true] at ih ⊢
+    omega
 end Crem.Runs
